@@ -40,7 +40,7 @@ func NewEnv() (*Env, error) {
 	if base == "" {
 		base = "/var/tmp"
 	}
-	dir, err := os.MkdirTemp(base, "verif-")
+	dir, err := os.MkdirTemp(base, "verif_")
 	if err != nil {
 		return nil, err
 	}
